@@ -102,3 +102,20 @@ Definition edges_ranked (rank : Z -> Z) (edges : list (Z * Z)) : bool :=
   forallb (fun e => rank (fst e) <? rank (snd e)) edges.
 Definition lock_order_acyclic (edges : list (Z * Z)) : bool :=
   edges_ranked (compute_rank edges) edges.
+
+(* ---- calls that leave the scanned code while mutexes are held (round 4; tools/lockscan/reentry.go) ---- *)
+
+(* One call site: (mutexes held at the call, mutexes acquired by the public getters of the object, which the
+   foreign code - a user callback, the next element of the chain - is permitted to call).  In the lock-order
+   machine the foreign code is the calling thread itself: still holding [fst], it may request any lock of [snd];
+   these are the edges fst x snd. *)
+Definition site := (list Z * list Z)%type.
+Definition callback_edges (s : site) : list (Z * Z) :=
+  flat_map (fun h => map (fun p => (h, p)) (snd s)) (fst s).
+Definition all_callback_edges (sites : list site) : list (Z * Z) := flat_map callback_edges sites.
+(* the foreign code can request a mutex its caller holds: sync.Mutex is not re-entrant *)
+Definition site_reentrant (s : site) : bool :=
+  existsb (fun h => existsb (Z.eqb h) (snd s)) (fst s).
+(* the recorded (held, acquired) edges together with the edges of all sites must be acyclic *)
+Definition callbacks_ok (edges : list (Z * Z)) (sites : list site) : bool :=
+  lock_order_acyclic (edges ++ all_callback_edges sites).
